@@ -278,3 +278,21 @@ M('C04', 'reversed-twice', C2F, "        let mut points = self.clone_points();\n
 M('C05', 'rdp-degenerate-chord-unguarded', PTF, "        let sp = if chord.norm() > 0.0 {\n            Some(SurfacePoint::new_normalize(self.points[i0], chord))\n        } else {\n            None\n        };", "        let sp = if chord.norm() >= 0.0 {\n            Some(SurfacePoint::new_normalize(self.points[i0], chord))\n        } else {\n            None\n        };", 'degenerate-chord')
 M('C05', 'rdp-squared-deviation', PTF, "                Some(sp) => (sp.projection(&self.points[i]) - self.points[i]).norm(),", "                Some(sp) => (sp.projection(&self.points[i]) - self.points[i]).norm_squared(),", 'deviation-is-a-distance')
 M('C05', 'positions-skip-missing', C2F, "        points.push(curve.at_length(*p).unwrap().point);", "        if let Some(st) = curve.at_length(*p) {\n            points.push(st.point);\n        }", 'every-position')
+
+# ---------------------------------------------------------------- C03
+SPF = 'src/common/surface_point.rs'
+M('C03', 'sp-transformed-normal-untouched', SPF, "        Self::new(t * self.point, t * self.normal)", "        Self::new(t * self.point, self.normal)", 'SurfacePoint::transformed')
+M('C03', 'cloud-transform-forgets-normals', PCF, """        if let Some(normals) = &mut self.normals {
+            for n in normals {
+                *n = transform * *n;
+            }
+        }
+""", "", 'PointCloud::transform')
+M('C03', 'cloud-transform-rotation-only', PCF, "            *p = transform * *p;", "            *p = transform.rotation * *p;", 'PointCloud::transform')
+M('C03', 'curve2-transformed-opens', C2F, "        let points = transform_points(self.line.vertices(), transform);\n        Curve2::from_points(&points, self.tol, self.is_closed).unwrap()", "        let points = transform_points(self.line.vertices(), transform);\n        Curve2::from_points(&points, self.tol, false).unwrap()", 'Curve2::transformed_by')
+M('C03', 'curve3-transformed-tol', C3F, "        Self::from_points(&points, self.tol).unwrap()\n    }\n\n    pub fn from_points", "        Self::from_points(&points, 1e-6).unwrap()\n    }\n\n    pub fn from_points", 'Curve3::transformed_by')
+M('C03', 'plane-transform-point-only', P3F, "        let repr = SurfacePoint3::new(pos.into(), self.normal);\n\n        let new_repr = repr.transformed(iso);\n        Self::from(&new_repr)", "        let repr = SurfacePoint3::new(pos.into(), self.normal);\n\n        let new_repr = SurfacePoint3::new(iso * repr.point, repr.normal);\n        Self::from(&new_repr)", 'Plane3::transform_by')
+M('C03', 'segment-transform-one-end', 'src/geom2/line2.rs', "            b: t.transform_point(&self.b),", "            b: self.b,", 'Segment2::transform_by')
+M('C03', 'distance-to3d-direction-unrotated', 'src/metrology.rs', "        let direction = iso * self.direction.to_3d();", "        let direction = self.direction.to_3d();", 'Distance2::to_3d')
+M('C03', 'sp-reversed-keeps-normal', SPF, "        Self::new(self.point, -self.normal)", "        Self::new(self.point, self.normal)", 'SurfacePoint::reversed')
+M('C03', 'mul-surface-point-identity', 'src/geom3.rs', "    fn mul(self, rhs: &SurfacePoint3) -> Self::Output {\n        rhs.transformed(self)", "    fn mul(self, rhs: &SurfacePoint3) -> Self::Output {\n        let _ = self;\n        *rhs", 'Mul<SurfacePoint>')
